@@ -34,7 +34,17 @@ const (
 	TxAccess  = 1 // EIP-2930
 	TxDynamic = 2 // EIP-1559
 	TxBlob    = 3 // EIP-4844
+	TxSetCode = 4 // EIP-7702
 )
+
+// Authorization is one EIP-7702 tuple. The signature is not modelled: the harness states which account signed it
+// (Authority == nil: no valid signature, e.g. garbage r/s or a high s value).
+type Authorization struct {
+	ChainID   *big.Int
+	Address   common.Address
+	Nonce     uint64
+	Authority *common.Address
+}
 
 // Tx is a transaction after sender recovery.
 type Tx struct {
@@ -51,6 +61,8 @@ type Tx struct {
 	AccessList []AccessTuple
 	BlobHashes []common.Hash
 	MaxBlobFee *big.Int
+	Auths      []Authorization // TxSetCode
+	Aux        any             // ignored by the reference (the harness keeps the signed tuples here)
 }
 
 // Rejection classes (a rejected transaction is not included in the block and changes nothing).
@@ -72,6 +84,8 @@ const (
 	RejBlobCreate     = "blob-tx-create"
 	RejBlobVersion    = "blob-hash-version"
 	RejBlobCount      = "too-many-blobs"
+	RejSetCodeCreate  = "set-code-tx-create"
+	RejSetCodeEmpty   = "set-code-tx-without-authorizations"
 )
 
 // Result of applying one transaction.
@@ -108,6 +122,8 @@ const (
 	maxCodeSize       = 24576
 	gFloorPerToken    = 10 // EIP-7623
 	txGasCap          = 1 << 24
+	gPerEmptyAccount  = 25000 // EIP-7702 PER_EMPTY_ACCOUNT_COST, charged per tuple in the intrinsic gas
+	gPerAuthBase      = 12500 // EIP-7702 PER_AUTH_BASE_COST
 	gasPerBlob        = 1 << 17
 	maxBlobsPerTxFusa = 6 // EIP-7594: at most 6 blobs per transaction from Osaka
 )
@@ -130,6 +146,7 @@ func IntrinsicGas(tx *Tx) uint64 {
 	for _, t := range tx.AccessList {
 		g += gAccessListAddr + gAccessListKey*uint64(len(t.Keys))
 	}
+	g += gPerEmptyAccount * uint64(len(tx.Auths))
 	return g
 }
 
@@ -222,7 +239,7 @@ func (b *Block) validate(tx *Tx) []string {
 	} else if sender.Nonce == ^uint64(0) {
 		rej = append(rej, RejNonceMax)
 	}
-	if len(sender.Code) > 0 && !isDelegation(sender.Code) {
+	if len(sender.Code) > 0 && !(env.Fork >= Prague && isDelegation(sender.Code)) {
 		rej = append(rej, RejSenderNotEOA)
 	}
 	if tx.Type >= TxDynamic && tx.MaxFee.Cmp(tx.MaxTip) < 0 {
@@ -256,14 +273,69 @@ func (b *Block) validate(tx *Tx) []string {
 		blobGas := new(big.Int).SetUint64(uint64(len(tx.BlobHashes)) * gasPerBlob)
 		need.Add(need, blobGas.Mul(blobGas, tx.MaxBlobFee))
 	}
+	if tx.Type == TxSetCode {
+		if tx.To == nil {
+			rej = append(rej, RejSetCodeCreate)
+		}
+		if len(tx.Auths) == 0 {
+			rej = append(rej, RejSetCodeEmpty)
+		}
+	}
 	if sender.Balance.Cmp(need) < 0 {
 		rej = append(rej, RejFunds)
 	}
 	return rej
 }
 
+// isDelegation: EIP-7702 delegation designator 0xef0100 || address.
 func isDelegation(code []byte) bool {
 	return len(code) == 23 && code[0] == 0xef && code[1] == 0x01 && code[2] == 0x00
+}
+
+// applyAuthorizations processes the EIP-7702 authorization list (before the message is executed; never rolled back).
+func (vm *machine) applyAuthorizations(auths []Authorization) {
+	st := vm.st
+	for _, a := range auths {
+		if a.ChainID.Sign() != 0 && a.ChainID.Cmp(vm.env.ChainID) != 0 {
+			continue
+		}
+		if a.Nonce == ^uint64(0) {
+			continue
+		}
+		if a.Authority == nil {
+			continue
+		}
+		auth := *a.Authority
+		st.warmAddr[auth] = true
+		acc := st.acc.get(auth)
+		if len(acc.Code) > 0 && !isDelegation(acc.Code) {
+			continue
+		}
+		if acc.Nonce != a.Nonce {
+			continue
+		}
+		if !st.acc.dead(auth) || len(acc.Storage) > 0 { // the account exists in the state
+			st.refund += gPerEmptyAccount - gPerAuthBase
+		}
+		m := st.mut(auth)
+		if a.Address == (common.Address{}) {
+			m.Code = nil
+		} else {
+			m.Code = append([]byte{0xef, 0x01, 0x00}, a.Address[:]...)
+		}
+		m.Nonce++
+	}
+}
+
+// resolve returns the code executed for a call to a (EIP-7702, Prague+: one level of delegation) and, when a is
+// delegated, the delegation target.
+func (vm *machine) resolve(a common.Address) ([]byte, *common.Address) {
+	code := vm.st.acc.get(a).Code
+	if vm.env.Fork >= Prague && isDelegation(code) {
+		t := common.BytesToAddress(code[3:])
+		return vm.st.acc.get(t).Code, &t
+	}
+	return code, nil
 }
 
 // Apply applies tx to the block (Yellow Paper section 6 with the EIPs listed in the
@@ -341,12 +413,13 @@ func (b *Block) Apply(tx *Tx) *Result {
 		}
 	} else {
 		st.warmAddr[*tx.To] = true
-		code := st.acc.get(*tx.To).Code
 		if isPrecompile(env.Fork, *tx.To) {
 			res.Unsupported = "transaction to a precompile"
 		}
-		if isDelegation(code) {
-			res.Unsupported = "transaction to a delegated account"
+		vm.applyAuthorizations(tx.Auths)
+		code, target := vm.resolve(*tx.To)
+		if target != nil {
+			st.warmAddr[*target] = true
 		}
 		out = vm.process(&message{caller: tx.From, target: *tx.To, codeAddr: *tx.To, code: code, value: tx.Value,
 			transfer: true, data: tx.Data, gas: gas, depth: 0})
